@@ -967,7 +967,7 @@ func runAgent(tg *target, c *Case, mode string) (o RunObs) {
 			grp = sorted
 			// the tool messages of a round in which a tool failed are not compared (which of the
 			// others had finished is a matter of timing); such a round is the last one
-			failedRound := o.Out.Err == 3 || (o.Out.Err == 1 && c.roundFails(c.toolsOf(!tg.exported), calls))
+			failedRound := (o.Out.Err == 3 || o.Out.Err == 1) && c.roundFails(c.toolsOf(!tg.exported), calls)
 			if !(j == len(emits) && o.Out.Class == "err" && failedRound) {
 				outE = append(outE, grp...)
 			}
@@ -990,6 +990,29 @@ func defaultChecker(chunks []Chunk) bool {
 		}
 	}
 	return false
+}
+
+// the chunks of a streamed reply can be concatenated (schema.concatToolCalls: the fragments of one
+// index must agree on the id and on the name where they give one)
+func concatOK(chunks []Chunk) bool {
+	ids, names := map[int]string{}, map[int]string{}
+	for _, ch := range chunks {
+		for _, f := range ch.Frags {
+			if f.ID != "" {
+				if old, ok := ids[f.Index]; ok && old != f.ID {
+					return false
+				}
+				ids[f.Index] = f.ID
+			}
+			if f.Name != "" {
+				if old, ok := names[f.Index]; ok && old != f.Name {
+					return false
+				}
+				names[f.Index] = f.Name
+			}
+		}
+	}
+	return true
 }
 
 func (c *Case) kindOf(name string) string { return kindIn(c.Tools, name) }
@@ -1072,6 +1095,22 @@ func (c *Case) specRunWith(stopAt int, callOpts bool, stream bool) (o RunObs) {
 			return fail(2)
 		}
 		st := c.Script[k]
+		if stream && !concatOK(st.Chunks) {
+			// a malformed stream: the chat node has returned it (streams are lazy) and the branch routes
+			// it; the tools node's pre-processing fails on it in the next step, or the run returns it
+			// and the caller fails reading it
+			routed := false
+			for _, ch := range st.Chunks {
+				routed = routed || len(ch.Frags) > 0
+			}
+			if c.Checker != "exact" {
+				routed = defaultChecker(st.Chunks)
+			}
+			if routed && budget == 0 {
+				return fail(1)
+			}
+			return fail(3)
+		}
 		am := Msg{Role: 2, Content: st.Content, Calls: st.Calls}
 		if o.HasEmits {
 			o.Emits = append(o.Emits, am)
@@ -1377,7 +1416,7 @@ func (o *RunObs) coq() string {
 	}
 	em := "None"
 	if o.HasEmits {
-		em = lib.CoqSome(coqMsgs(o.Emits))
+		em = lib.CoqSome(lib.CoqPair(coqMsgs(o.Emits), lib.CoqBool(o.FutEnd == "closed")))
 	}
 	return lib.CoqApp("ORun", md, lib.CoqBool(!o.Exported), lib.CoqList(ins), lib.CoqList(rs), em, out, lib.CoqBool(o.Mutated))
 }
@@ -1595,7 +1634,7 @@ func genCase(r *lib.Rng, tier string) *Case {
 			switch r.Intn(20) {
 			case 0, 1:
 				o.Fail = true
-			case 2:
+			case 2, 3:
 				o.Panic = true
 			}
 			c.Outs = append(c.Outs, o)
@@ -1657,6 +1696,14 @@ func genCase(r *lib.Rng, tier string) *Case {
 		}
 		st.Chunks = genChunks(r, &st, order)
 		c.Script = append(c.Script, st)
+	}
+	// rarely a malformed stream: a last chunk naming another tool for the call at index 0 (Generate,
+	// which gets the whole message, is not concerned; Stream must fail where the stream is read)
+	if r.Chance(1, 30) {
+		k := r.Intn(len(c.Script))
+		if st := &c.Script[k]; !st.Fail && len(st.Calls) > 0 {
+			st.Chunks = append(st.Chunks, Chunk{Frags: []Frag{{Index: 0, Name: "othertool"}}})
+		}
 	}
 	switch r.Intn(4) {
 	case 0:
@@ -1921,6 +1968,12 @@ func (engine) Run(ci any) lib.Result {
 		}
 	}
 	res.Tags = append(res.Tags, "tool-call-ids:"+idTag)
+	for k, st := range c.Script {
+		if !st.Fail && !concatOK(st.Chunks) && k < len(gen.Inputs) {
+			res.Tags = append(res.Tags, "model-stream:malformed(reached)")
+			break
+		}
+	}
 	innerEmpty := false
 	for _, st := range c.Script {
 		for i, ch := range st.Chunks {
